@@ -182,6 +182,7 @@ def run(chk, repo, tier):
     chk.ob('C10-d', 'E4-module-state', 'fixture', 'positive control', True,
            f'{len(fmw)} planted module-state writes recognised in fixtures/module_state')
 
+    common.lazy_attribute_rule(chk, repo, 'C10-d', sorted(m.name for m in repo.modules.values()))
     # ---------------------------------------------------------------- C10-e
     shared_tilt_rule(chk, repo, eff, 'C10-f')
     common.tilt_slot_agreement(chk, repo, 'C10-e')
